@@ -764,14 +764,20 @@ func (e *ConditionalExpr) Value(ctx *hcl.EvalContext) (cty.Value, hcl.Diagnostic
 	}
 
 	if resultType == cty.NilType {
+		detail := fmt.Sprintf(
+			"The true and false result expressions must have consistent types. %s.",
+			describeConditionalTypeMismatch(trueResult.Type(), falseResult.Type()),
+		)
+		if trueResult.ContainsMarked() || falseResult.ContainsMarked() {
+			// The description names object attributes, which can derive from
+			// marked (for example sensitive) values used as keys.
+			detail = "The true and false result expressions must have consistent types."
+		}
 		return cty.DynamicVal, hcl.Diagnostics{
 			{
-				Severity: hcl.DiagError,
-				Summary:  "Inconsistent conditional result types",
-				Detail: fmt.Sprintf(
-					"The true and false result expressions must have consistent types. %s.",
-					describeConditionalTypeMismatch(trueResult.Type(), falseResult.Type()),
-				),
+				Severity:    hcl.DiagError,
+				Summary:     "Inconsistent conditional result types",
+				Detail:      detail,
 				Subject:     hcl.RangeBetween(e.TrueResult.Range(), e.FalseResult.Range()).Ptr(),
 				Context:     &e.SrcRange,
 				Expression:  e,
